@@ -5,6 +5,9 @@ ENV = dict(os.environ, ASAN_OPTIONS="detect_leaks=0:abort_on_error=0:allocator_m
            UBSAN_OPTIONS="print_stacktrace=1:halt_on_error=1")
 
 
+SEM_SEEN = []
+
+
 def run_batch(exe, scripts, timeout=600, per_script_timeout=20, max_hangs=2):
     """scripts: list of (id, [lines]).  returns {id: dict(out=[lines], crash=None|text)}.
     A batch that does not finish within `timeout` counts as a hang of the script it stopped in; after a hang the remaining
@@ -46,6 +49,14 @@ def run_batch(exe, scripts, timeout=600, per_script_timeout=20, max_hangs=2):
             hangs += 1
             timeout = min(timeout, 90)
             if hangs >= max_hangs:
+                break
+    # the instrumented semaphores of the simulated HAL print a `sem ...` line only when the library misuses one (wait on a lock the
+    # thread already holds, post of a free lock, ...): remember them, whatever the calling check looks at (Check.finish reports them)
+    by_id = dict(scripts) if scripts and isinstance(scripts[0], tuple) else {}
+    for sid_, r_ in res.items():
+        for l_ in r_["out"]:
+            if l_.startswith("sem ") and len(SEM_SEEN) < 40:
+                SEM_SEEN.append((str(exe), sid_, l_, by_id.get(sid_, [])))
                 break
     return res
 
